@@ -105,6 +105,13 @@ class LineRun:
         self.bus = bus = instrument.Bus(ties.make_policy(spec.get('tie', 'prng'), spec.get('seed', 0)))
         status = 'ok'
         with instrument.use_bus(bus):
+            # monitors that must see every event from its creation on (the script events are
+            # scheduled while the model is built) are attached first
+            for name in self.monitor_names:
+                if getattr(REGISTRY[name], 'early', False):
+                    mon = REGISTRY[name](self)
+                    self.monitors.append(mon)
+                    bus.attach(mon)
             try:
                 self.model = build_mod.build(spec, bus)
             except Exception:
@@ -114,6 +121,8 @@ class LineRun:
             self.progress = Progress(self, spec.get('max_events', 20000))
             bus.attach(self.progress)
             for name in self.monitor_names:
+                if getattr(REGISTRY[name], 'early', False):
+                    continue
                 mon = REGISTRY[name](self)
                 self.monitors.append(mon)
                 bus.attach(mon)
